@@ -282,10 +282,11 @@ func (x *Exec) valueInv(st *State, t types.Type, term string) string {
 		inv = and(inv, "(<= "+term+" "+st.alloc+")")
 	case *types.Slice:
 		inv = and(inv, "(<= (s_base "+term+") "+st.alloc+")")
-		// the backing array of a slice is one allocation: its size in bytes fits an int
-		// (the Go runtime refuses larger allocations), so cap*sizeof(elem) <= MaxInt64
-		if k := elemSize(t.Underlying().(*types.Slice).Elem()); k > 1 {
-			inv = and(inv, fmt.Sprintf("(<= (* %d (s_cap %s)) 9223372036854775807)", k, term))
+		// the backing array of a slice is one allocation and the Go runtime refuses allocations
+		// above maxAlloc, so cap*sizeof(elem) <= 2^48
+		// (the Go runtime's maxAlloc on linux/amd64 is 2^48 bytes; zero-size elements excluded)
+		if k := elemSize(t.Underlying().(*types.Slice).Elem()); k >= 1 {
+			inv = and(inv, fmt.Sprintf("(<= (* %d (s_cap %s)) 281474976710656)", k, term))
 		}
 	}
 	return inv
@@ -887,6 +888,19 @@ func (x *Exec) loopHead(fr *Frame, li *loopInfo, entry *State, phiEntry map[*ssa
 			}
 			if c0 != nil {
 				addCand(phi, "lo", ">=", x.toMathInt(x.constVal(c0)))
+			} else if _, signed, _ := intInfo(phi.Type()); signed {
+				// a cursor that enters with a parameter's value: v >= 0 and v <= len(p) for the
+				// slice parameters p of the function
+				addCand(phi, "ge0", ">=", "0")
+				// a cursor only moves forward: v >= the value it entered the loop with
+				if ev := phiEntry[phi]; ev.S != "" && ev.Pl == nil && ev.Cl == nil {
+					addCand(phi, "geentry", ">=", x.toMathInt(ev))
+				}
+				for pi, prm := range fr.fn.Params {
+					if _, isSl := prm.Type().Underlying().(*types.Slice); isSl && pi < len(fr.params) && fr.params[pi].S != "" {
+						addCand(phi, "lelen_"+prm.Name(), "<=", "(s_len "+fr.params[pi].S+")")
+					}
+				}
 			}
 		}
 		// upper bounds from comparisons inside the loop
